@@ -39,4 +39,7 @@ CLAIMED.update({
              level_text="Result oracle: bcmp==0 iff equal, memcmp == sign of the first unsigned difference, regions flush against PROT_NONE pages. Independence oracle: any branch or address depending on operand bytes raises a memcheck error inside the function.",
              level_note="Decides control-flow/address independence as seen by memcheck definedness tracking, not cycle-level timing; gcc 12/clang 14, x86-64.", design_ref="DESIGN.md 3 C19"),
 })
+CLAIMED["C09"] = dict(technique="property-based testing: grammar-generated format strings (exhaustive small lattice of n-directive shapes + random multi-directive formats) over all 28 entry points called through libffi; oracle = 16-byte sentinel behind every n argument unchanged, negative/EOF return and constraint handler invoked",
+    level_text="Every generated format with a real n conversion must leave its sentinel argument bit-identical and be rejected through the constraint handler; escaped look-alikes are generated and counted but never judged.",
+    level_note=GEN_NOTE.split(" Families")[0] + " Arguments always match the directives (libc is the delegate for 21 entry points); stdout/stdin/FILE* are memory streams.", design_ref="DESIGN.md 3 C09")
 UNCLAIMED = {}
